@@ -240,6 +240,18 @@ func jsonEq(a, b any) bool {
 	return string(x) == string(y)
 }
 
+// canonEq compares two JSON-able values structurally (object key order and Go types do not matter).
+func canonEq(a, b any) bool {
+	canon := func(v any) string {
+		x, _ := json.Marshal(v)
+		var g any
+		json.Unmarshal(x, &g)
+		y, _ := json.Marshal(g)
+		return string(y)
+	}
+	return canon(a) == canon(b)
+}
+
 func sortedKeys[V any](m map[string]V) []string {
 	ks := make([]string, 0, len(m))
 	for k := range m {
